@@ -77,7 +77,7 @@ let parse_tree s =
       while !i < Str_.length s && not (Str_.contains "()," s.[!i]) do incr i done;
       let name = bytes_of_hex (Str_.sub s j (!i - j)) in
       (match k with
-       | 'F' -> acc := File.File name :: !acc
+       | 'F' | 'L' -> acc := File.File name :: !acc   (* L: symbolic link to a regular file *)
        | 'D' -> let cs = entries () in acc := File.Dir (name, cs) :: !acc
        | _ -> failwith "tree");
       if s.[!i] = ',' then incr i
@@ -115,4 +115,37 @@ let do_findfile toks =
     Printf.sprintf "%s | spec=%s nested=%s" m s (b01 (C13.dots_nested_fs root path name))
   | _ -> "bad-case"
 
-let () = register "registry" do_registry; register "findfile" do_findfile
+(* findtwice <treeA> <treeB> <cwd> <path> <name>: lookup on A; if nothing was found, lookup on A with B's entries added *)
+let rec merge_entries (a : File.entry list) (b : File.entry list) : File.entry list =
+  L.fold_left (fun acc e ->
+      match e with
+      | File.Dir (n, cs) when L.exists (function File.Dir (n', _) -> n' = n | _ -> false) acc ->
+        L.map (function File.Dir (n', cs') when n' = n -> File.Dir (n', merge_entries cs' cs) | x -> x) acc
+      | _ -> acc @ [e]) a b
+
+let do_findtwice toks =
+  match toks with
+  | [ta; tb; c; p; n] ->
+    let a = parse_tree ta in
+    let ab = merge_entries a (parse_tree tb) in
+    let cwd = comps c in
+    let path = if p = "-" then [] else
+        L.map (fun e ->
+            let n = Str_.length e in
+            if n > 0 && e.[n - 1] = '+' then (comps (Str_.sub e 0 (n - 1)), true) else (comps e, false))
+          (split ';' p) in
+    let name = bytes_of_hex n in
+    let look tree =
+      match File.findFile_fs (File.Dir ([], tree)) cwd path name with
+      | Outcome.Ok f ->
+        let i = int_of_nat f.File.f_loc in
+        let base = if i = 0 then cwd else fst (L.nth path (i - 1)) in
+        show_comps (base @ f.File.f_rel)
+      | Outcome.Err -> "-"
+      | _ -> "unmodelled" in
+    let first = look a in
+    let second = if first = "-" then look ab else first in
+    first ^ " " ^ second
+  | _ -> "bad-case"
+
+let () = register "findtwice" do_findtwice; register "registry" do_registry; register "findfile" do_findfile
